@@ -76,10 +76,34 @@ def _render_alarm(signum, frame):       # pylint: disable=unused-argument
     raise RenderTimeout()
 
 
-def _render(R, E, order):
-    "call the renderers the way Droop.main does after ^C; never raises"
+class _ClosedStdout:
+    "sys.stdout of a daemon or of `prog >&-`: every use fails like a closed file"
+
+    def write(self, s):         # pylint: disable=unused-argument
+        raise ValueError("I/O operation on closed file.")
+
+    def flush(self):
+        raise ValueError("I/O operation on closed file.")
+
+    closed = True
+
+
+def stdout_closed_at(k):
+    "is the console gone while the renderings of the execution interrupted at event k are produced? (1 in 13)"
+    return k % 13 == 5
+
+
+def _render(R, E, order, closed_stdout=False):
+    """call the renderers the way Droop.main does after ^C; never raises.
+
+    closed_stdout: fault injection at the console seam -- the renderers return strings and have no business with
+    sys.stdout, so a report must still be producible when the console is gone."""
+    import sys as _sys      # pylint: disable=import-outside-toplevel
     out = []
     old = signal.signal(signal.SIGALRM, _render_alarm)
+    saved_stdout = _sys.stdout
+    if closed_stdout:
+        _sys.stdout = _ClosedStdout()
     try:
         for name in order:
             signal.setitimer(signal.ITIMER_REAL, RENDER_WALL)
@@ -96,6 +120,7 @@ def _render(R, E, order):
                 frame, line_text = exc_info_in_tree(R, e)
                 out.append(dict(name=name, exc=type(e).__name__, msg=str(e)[:200], frame=frame, line_text=line_text))
     finally:
+        _sys.stdout = saved_stdout
         signal.setitimer(signal.ITIMER_REAL, 0)
         signal.signal(signal.SIGALRM, old)
     return out
@@ -116,7 +141,8 @@ def _finish_api(R, E, tr, unr, exc, res, order):
         return res
     res['count_exc'] = type(exc).__name__
     res['status'] = 'interrupted'
-    res['renderings'] = _render(R, E, order)
+    res['stdout_closed'] = stdout_closed_at(res['k'])
+    res['renderings'] = _render(R, E, order, res['stdout_closed'])
     res['actions'] = canon.canon_actions(E.erecord)
     return res
 
@@ -130,7 +156,7 @@ def summarise(ref, res):
         h.update((rr.get('text') if isinstance(rr.get('text'), str) else str(rr.get('exc'))).encode('utf-8', 'replace'))
     return dict(event=res['event'], k=res['k'], mech=res['mech'], order=res['order'], driver=res['driver'],
                 flags=res.get('flags'), status=res.get('status'), fired=res.get('fired'),
-                count_exc=res.get('count_exc'), unraisable=res.get('unraisable'),
+                count_exc=res.get('count_exc'), unraisable=res.get('unraisable'), stdout_closed=res.get('stdout_closed'),
                 nmark=count_markers(ref, res.get('actions') or []),
                 viols=check(ref, res), rhash=h.hexdigest()[:12])
 
@@ -735,6 +761,8 @@ def run_case(R, seed, idx, tier):
             probe('markers>1')
         if sm.get('unraisable'):
             probe('unraisable_seen')
+        if sm.get('stdout_closed'):
+            probe('rendered_with_closed_stdout')
 
     converted = []      # executions in which count() let out something other than KeyboardInterrupt
 
